@@ -2,7 +2,7 @@
 
 No a816 code is used here.  Records are (offset, kind, payload):
   kind "plain": payload = data bytes (1..65535)
-  kind "rle"  : payload = (run_length 1..65535, value byte)
+  kind "rle"  : payload = (run_length 0..65535, value byte)
 
 Format: b"PATCH", records, b"EOF".
   plain record: 3-byte BE offset, 2-byte BE size (!=0), size bytes
@@ -102,7 +102,7 @@ def encode(records: list[Record], header: bytes = b"PATCH", footer: bytes = b"EO
         out += off.to_bytes(3, "big")
         if kind == "rle":
             run, value = payload
-            if not 1 <= run <= 0xFFFF:
+            if not 0 <= run <= 0xFFFF:  # a run of 0 is a legal record that writes nothing
                 raise ValueError("bad run")
             out += b"\x00\x00" + run.to_bytes(2, "big") + bytes([value])
         else:
